@@ -53,7 +53,7 @@ Proof.
   destruct (Nat.leb_spec (length n) (length s)) as [H|H]; cbn [andb].
   - unfold starts_with_str. destruct n as [|c2 n]; [reflexivity|].
     destruct s as [|c s]; [cbn in H; lia|]. apply sws_loop_starts. exact H.
-  - destruct (starts n s) eqn:E; auto. apply starts_length in E. lia.
+  - destruct (starts n s) eqn:E; [|reflexivity]. apply starts_length in E. lia.
 Qed.
 
 (* ---- dictionary look-ups ---- *)
